@@ -8,7 +8,7 @@ from amoco.ui.render import TokenListJoin, LambdaTokenListJoin
 
 
 def tok_mnemo(x):
-    return [(Token.Mnemonic, "{:<12}".format(m.lower()))]
+    return [(Token.Mnemonic, "{:<12}".format(x.lower()))]
 
 
 def mnemo(i):
